@@ -14,8 +14,8 @@ import (
 
 	log "github.com/hashicorp/go-hclog"
 	hraft "github.com/hashicorp/raft"
-	"github.com/openbao/openbao/v2/internal/physical/raft"
 	"github.com/openbao/openbao/sdk/v2/physical"
+	"github.com/openbao/openbao/v2/internal/physical/raft"
 )
 
 // RaftH is a real single-node RaftBackend (hashicorp/raft, in-memory
@@ -164,6 +164,8 @@ type rRead struct {
 	val    []byte
 	found  bool
 	fsmIdx uint64
+	// FSM index right after the read returned
+	fsmIdxAfter uint64
 }
 
 // RaftRun is everything a Raft workload run recorded.
@@ -272,6 +274,26 @@ func RunRaftWorkload(rc *RunCtx, h *RaftH, prop string) *RaftRun {
 	s.StallKind = "fsm"
 	s.StallPermille = []int{0, 300, 600, 850}[tp.Pick(4)]
 	rc.Cfg("fsm_stall_permille", s.StallPermille)
+	// a client task may also park right before an uncontended lock (the state
+	// machine can then apply an entry between two statements of BeginTx / Get / Commit)
+	s.YieldOnAcquirePermille = []int{0, 40, 150}[tp.Pick(3)]
+	s.YieldAcquireLeft = 10
+	s.AcquireSeed = tp.SubSeed()
+	nBig := 0
+	for _, sc := range scripts {
+		for _, j := range sc {
+			for _, op := range j.ops {
+				if op.big {
+					nBig++
+				}
+			}
+		}
+	}
+	if nBig > 1 {
+		// (two chunked puts that overtake each other could not be told apart in the log)
+		s.YieldOnAcquirePermille = 0
+	}
+	rc.Cfg("yield_on_acquire_permille", s.YieldOnAcquirePermille)
 	nval := 0
 	txSeq := 0
 	note := func(f string, a ...any) {
@@ -324,7 +346,7 @@ func RunRaftWorkload(rc *RunCtx, h *RaftH, prop string) *RaftRun {
 						idx := raft.VerifFSMIndex(fsm)
 						e, err := b.Get(ctx, op.key)
 						if err == nil {
-							r := rRead{key: op.key, fsmIdx: idx}
+							r := rRead{key: op.key, fsmIdx: idx, fsmIdxAfter: raft.VerifFSMIndex(fsm)}
 							if e != nil {
 								r.val, r.found = e.Value, true
 							}
@@ -533,6 +555,7 @@ func CheckRaftSerial(rc *RunCtx, h *RaftH, rr *RaftRun, prop string) {
 		return states[i-1].kv
 	}
 	pi := 0
+	match := rr.Matcher()
 	cmdsBetween := func(lo, hi uint64) int { // command entries with lo < index < hi
 		n := 0
 		for _, l := range rr.Logs {
@@ -541,6 +564,20 @@ func CheckRaftSerial(rc *RunCtx, h *RaftH, rr *RaftRun, prop string) {
 			}
 		}
 		return n
+	}
+	// an observation that shows the chunking layer's own records (they live in
+	// the data bucket under raftchunking/, visible to a root listing while a
+	// chunked entry is in flight)
+	seesChunkStore := func(o *obs) bool {
+		if o == nil {
+			return false
+		}
+		for _, e := range o.result {
+			if strings.HasPrefix(e, "raftchunking") {
+				return true
+			}
+		}
+		return strings.HasPrefix(o.key, "raftchunking")
 	}
 	conflicts, commits := 0, 0
 	for _, l := range rr.Logs {
@@ -552,30 +589,11 @@ func CheckRaftSerial(rc *RunCtx, h *RaftH, rr *RaftRun, prop string) {
 		if isChunk && !lastChunk {
 			continue // the proposal takes effect with its last chunk
 		}
-		if pi >= len(rr.Proposals) {
-			panic(fmt.Sprintf("raft log has more command entries than proposals (%s at %d)", kind, l.Index))
+		p := match(l)
+		if p == nil {
+			panic(fmt.Sprintf("raft log entry %d (%s %v) matches no outstanding proposal", l.Index, kind, writes))
 		}
-		p := rr.Proposals[pi]
 		pi++
-		// sanity: the log entry is the proposal we think it is
-		switch p.kind {
-		case "put":
-			if isChunk {
-				if len(p.val) < 512*1024 {
-					panic(fmt.Sprintf("log/proposal mismatch at index %d: chunked entry vs small put %s", l.Index, p.key))
-				}
-			} else if kind != "plain" || !bytes.Equal(writes[p.key], p.val) {
-				panic(fmt.Sprintf("log/proposal mismatch at index %d: %s %v vs put %s", l.Index, kind, writes, p.key))
-			}
-		case "del":
-			if v, ok := writes[p.key]; kind != "plain" || !ok || v != nil {
-				panic(fmt.Sprintf("log/proposal mismatch at index %d: %s %v vs del %s", l.Index, kind, writes, p.key))
-			}
-		case "tx":
-			if kind != "tx" {
-				panic(fmt.Sprintf("log/proposal mismatch at index %d: %s vs tx", l.Index, kind))
-			}
-		}
 		switch p.kind {
 		case "put":
 			if p.err != nil {
@@ -596,7 +614,7 @@ func CheckRaftSerial(rc *RunCtx, h *RaftH, rr *RaftRun, prop string) {
 				commits++
 				next := state.Clone()
 				if bad, want := replayObs(t.ops, next); bad != nil {
-					viol("stale-read-committed", map[string]any{"fsm_behind_raft_at_begin": lagging, "obs": string(bad.kind)},
+					viol("stale-read-committed", map[string]any{"fsm_behind_raft_at_begin": lagging, "obs": string(bad.kind), "root_listing_shows_chunk_storage": seesChunkStore(bad)},
 						"T%d (began at fsm index %d while raft's last index was %d; committed at index %d) committed although it observed %s, but in log order the %s; ops %v",
 						t.id, t.beginIdx, t.raftLastIdx, l.Index, bad, want, t.ops)
 					return
@@ -637,11 +655,12 @@ func CheckRaftSerial(rc *RunCtx, h *RaftH, rr *RaftRun, prop string) {
 		// candidate states: state at begin index, and every later one up to finish
 		cands := []*KV{stateAt(t.beginIdx)}
 		for _, st := range states {
-			if st.idx > t.beginIdx && st.idx <= t.finishIdx {
+			if st.idx > t.beginIdx && st.idx <= t.finishIdx+64 {
 				cands = append(cands, st.kv)
 			}
 		}
 		var first string
+		chunkStore := false
 		for _, c := range cands {
 			bad, want := replayObs(t.ops, c.Clone())
 			if bad == nil {
@@ -650,18 +669,31 @@ func CheckRaftSerial(rc *RunCtx, h *RaftH, rr *RaftRun, prop string) {
 			}
 			if first == "" {
 				first = fmt.Sprintf("%s vs %s", bad, want)
+				chunkStore = seesChunkStore(bad)
 			}
 		}
 		if !ok {
-			viol("inconsistent-snapshot-read", nil, "T%d (no writes, fsm index %d..%d) observed values consistent with no single state in that range (%s); ops %v", t.id, t.beginIdx, t.finishIdx, first, t.ops)
+			viol("inconsistent-snapshot-read", map[string]any{"root_listing_shows_chunk_storage": chunkStore}, "T%d (no writes, fsm index %d..%d) observed values consistent with no single state in that range (%s); ops %v", t.id, t.beginIdx, t.finishIdx, first, t.ops)
 			return
 		}
 	}
+	// (the state machine publishes its index after the bolt commit of a batch:
+	// a view opened in between already holds that batch - so the upper end of
+	// every window is one batch past the index read afterwards; the lower end,
+	// which is what staleness is judged by, is exact)
+	const batchSlack = 64
 	for _, r := range rr.Reads {
 		m := stateAt(r.fsmIdx)
 		mv, mok := m.Get(r.key)
-		if mok != r.found || !bytes.Equal(mv, r.val) {
-			viol("plain-read-mismatch", nil, "plain get %q at fsm index %d = (%q,%v), log-order state has (%q,%v)", r.key, r.fsmIdx, r.val, r.found, mv, mok)
+		ok := mok == r.found && bytes.Equal(mv, r.val)
+		for _, st := range states {
+			if !ok && st.idx > r.fsmIdx && st.idx <= r.fsmIdxAfter+batchSlack {
+				v, f := st.kv.Get(r.key)
+				ok = f == r.found && bytes.Equal(v, r.val)
+			}
+		}
+		if !ok {
+			viol("plain-read-mismatch", nil, "plain get %q at fsm index %d..%d = (%q,%v), log-order state at %d has (%q,%v)", r.key, r.fsmIdx, r.fsmIdxAfter, r.val, r.found, r.fsmIdx, mv, mok)
 			return
 		}
 	}
@@ -681,4 +713,49 @@ func CheckRaftSerial(rc *RunCtx, h *RaftH, rr *RaftRun, prop string) {
 	}
 	s.ProbeN("txn_conflicts", conflicts)
 	s.ProbeN("txn_commits", commits)
+}
+
+// Matcher returns a function that names the proposal a command entry of the
+// leader's log (for a chunked command: its last chunk) belongs to. Proposals
+// are registered right before the backend call; a task that parks between the
+// two (yield before an uncontended lock) can be overtaken, so entries are
+// matched by content (written values are unique), in registration order among
+// equals. nil: no outstanding proposal matches.
+func (rr *RaftRun) Matcher() func(l *hraft.Log) *rProposal {
+	matched := map[*rProposal]bool{}
+	return func(l *hraft.Log) *rProposal {
+		kind, writes, _, _ := raft.VerifLogKind(l)
+		isChunk, _ := raft.VerifChunk(l)
+		matches := func(p *rProposal) bool {
+			switch p.kind {
+			case "put":
+				if isChunk {
+					return len(p.val) >= 512*1024
+				}
+				return kind == "plain" && len(writes) == 1 && writes[p.key] != nil && bytes.Equal(writes[p.key], p.val)
+			case "del":
+				v, ok := writes[p.key]
+				return kind == "plain" && len(writes) == 1 && ok && v == nil
+			case "tx":
+				if kind != "tx" || p.txn == nil || len(writes) != len(p.txn.own) {
+					return false
+				}
+				for k, v := range p.txn.own {
+					w, ok := writes[k]
+					if !ok || !bytes.Equal(w, v) || (w == nil) != (v == nil) {
+						return false
+					}
+				}
+				return true
+			}
+			return false
+		}
+		for _, c := range rr.Proposals {
+			if !matched[c] && matches(c) {
+				matched[c] = true
+				return c
+			}
+		}
+		return nil
+	}
 }
